@@ -1,7 +1,7 @@
 use crate::{
     util::{
-        rangeint::{RFrom, RInto},
-        t::{NoUnits, NoUnits128, C, C128},
+        rangeint::RInto,
+        t::{NoUnits128, C, C128},
     },
     Unit,
 };
@@ -182,6 +182,8 @@ impl RoundMode {
 
 #[cfg(test)]
 mod tests {
+    use crate::util::t::NoUnits;
+
     use super::*;
 
     // Some ad hoc tests I wrote while writing the rounding increment code.
